@@ -134,6 +134,23 @@ def run(pid, tier, out):
                 samples.append({'request': name, 'crash': desc, 'effect': eff})
             for msg in crash_oracle(op, before, after, final, nobs):
                 viols.append(({'kind': 'crash', 'request': name, 'setup': setup, 'op': op, 'point': k, 'where': desc}, msg))
+    # raced requests (two connections, deterministic schedule): crash points along the conflict / retry / fall-back paths
+    raced = {'points': 0, 'problems': []}
+    try:
+        import sys
+        env = dict(os.environ, PYTHONPATH='%s:%s' % (os.environ.get('VERIF_REPO', '/repo'), common.ROOT), PYTHONHASHSEED='0')
+        pr = subprocess.run([sys.executable, '-m', 'harness.raced_crash', '--json'], capture_output=True, text=True, timeout=1800,
+                            cwd=common.ROOT, env=env)
+        raced = json.loads(pr.stdout)
+    except Exception as exc:      # noqa
+        viols.append(({'kind': 'raced-crash', 'request': 'stream error', 'point': -1}, 'raced crash stream failed: %s' % str(exc)[-300:]))
+    stats['points'] += raced['points']
+    for b in raced['problems'][:2]:
+        viols.append(({'kind': 'raced-crash', 'request': b['scenario'], 'requests': b['requests'], 'schedule': b['schedule'],
+                       'point': b['crash_before_statement'], 'of': b['statements_of_the_request'],
+                       'statuses_when_complete': b['statuses_when_complete'], 'replay_cmd': 'python -m harness.raced_crash'},
+                      '%s, process dead before statement %d of %d (schedule %r): %s' % (
+                          b['scenario'], b['crash_before_statement'], b['statements_of_the_request'], b['schedule'], b['text'])))
     model_ok = all(common.vo_fresh(d) for d in MODEL)
     disagreements = []
     corr_error = None
@@ -195,6 +212,12 @@ def run(pid, tier, out):
 def replay(pid, path, out):
     from harness.checks_seq import tuple_op
     p = json.load(open(path))
+    if p.get('kind') == 'raced-crash':
+        from harness import raced_crash
+        n, bad = raced_crash.run()
+        for b in bad[:1]:
+            out.violation(p, '%s, process dead before statement %d: %s' % (b['scenario'], b['crash_before_statement'], b['text']))
+        return
     if p.get('kind') != 'crash':
         run(pid, 'quick', out)
         return
